@@ -79,6 +79,8 @@ func ruleC09(r *Report) {
 	safely(r, func() { checkInflate(r, a, sc, "C09.inflate") })
 	safely(r, func() { checkIRE(r, a, sc, "C09.ire") })
 	safely(r, func() { checkErrDrop(r, a, sc, sortedFns(p, sc.Consume), "C09.errdrop") })
+	r.Rule("C09.no-wait", "the library's own code on the consuming paths never waits: no sleep, timer, ticker, channel operation, select or WaitGroup/Cond wait (a wait whose length the peer can choose is a hang)", 1)
+	safely(r, func() { checkNoWaiting(r, p, sortedFns(p, sc.Consume), "C09.no-wait") })
 }
 
 func ruleC11(r *Report) {
@@ -1477,4 +1479,49 @@ func unavailableHash(p *Prog, fc *FuncCtx, at *ssa.BasicBlock, v ssa.Value, dept
 		}
 	}
 	return "is not a constant on every path"
+}
+
+// checkNoWaiting: C09.no-wait. "Never hangs": the library's own code on the message-consuming paths does not wait — no
+// sleep, timer, ticker, channel operation, select, WaitGroup/Cond wait. (Network I/O inside net/http is bounded by the
+// application's client and context: trusted base.) A wait whose length comes from the peer (a Retry-After date, a
+// back-off read from the message) is a hang the peer chooses.
+func checkNoWaiting(r *Report, p *Prog, fns []*ssa.Function, rule string) {
+	waits := map[string]bool{
+		"time.Sleep": true, "time.After": true, "time.NewTimer": true, "time.Tick": true, "time.NewTicker": true, "time.AfterFunc": true,
+		"(*time.Timer).Reset": true, "(*sync.WaitGroup).Wait": true, "(*sync.Cond).Wait": true,
+	}
+	n, hits := 0, 0
+	for _, fn := range fns {
+		if !p.InLibrary(fn) || len(fn.Blocks) == 0 {
+			continue
+		}
+		n++
+		for _, b := range fn.Blocks {
+			for _, in := range b.Instrs {
+				what := ""
+				switch x := in.(type) {
+				case *ssa.Select:
+					what = "select"
+				case *ssa.Send:
+					what = "channel send"
+				case *ssa.UnOp:
+					if x.Op == token.ARROW {
+						what = "channel receive"
+					}
+				case ssa.CallInstruction:
+					if sc := x.Common().StaticCallee(); sc != nil && waits[sc.String()] {
+						what = "call of " + sc.String()
+					}
+				}
+				if what != "" {
+					hits++
+					r.Fn(p.FnName(fn))
+					r.Bad(rule, fmt.Sprintf("%s: no waiting on the consuming path (%s)", p.FnName(fn), what), p.InstrPos(in), "the consuming path waits ("+what+"): how long is decided by a value that can come from the peer or from another goroutine, so the API can hang instead of returning a result or an error")
+				}
+			}
+		}
+	}
+	if hits == 0 {
+		r.OK(rule, "consuming paths: no sleep, timer, channel or wait operation", "-", fmt.Sprintf("%d functions scanned", n))
+	}
 }
